@@ -117,6 +117,10 @@ def handleC07 : List String → String
     match n.toInt? with
     | some n => hexN (Container.writeItf8 n)
     | none => "bad-op"
+  | ["itf8size", n] =>
+    match n.toInt? with
+    | some n => toString (Container.itf8SizeOf n)
+    | none => "bad-op"
   | ["eof"] => hexN Container.eof
   | _ => "bad-op"
 
